@@ -344,10 +344,45 @@ class Validator:
     def prims(self):
         return [{"kind": a.name, "args": a.args, "ret": a.ret} for a in self.atoms if a.kind == "prim"]
 
-    def check(self, s, timeout_ms=120000):
+    cross = False          # thorough tier: every obligation query is also given to cvc5 and the verdicts must agree
+    cross_stats = None
+
+    def cvc5_verdict(self, s, timeout_s=60):
+        import tempfile
+        txt = "(set-logic ALL)\n" + s.to_smt2()
+        with tempfile.NamedTemporaryFile("w", suffix=".smt2", delete=False) as f:
+            f.write(txt)
+            path = f.name
+        try:
+            p = subprocess.run(["cvc5", "--lang", "smt2", "--tlimit=%d" % (timeout_s * 1000), path],
+                               capture_output=True, text=True, timeout=timeout_s + 30)
+            out = (p.stdout + p.stderr)
+            if "(error" in out:
+                return "error"
+            for line in p.stdout.split():
+                if line in ("sat", "unsat", "unknown"):
+                    return line
+            return "unknown"
+        except subprocess.TimeoutExpired:
+            return "unknown"
+        finally:
+            os.remove(path)
+
+    def check(self, s, timeout_ms=120000, obligation=False):
         s.set("timeout", timeout_ms)
         t0 = time.time()
         r = s.check()
+        if obligation and Validator.cross and r in (z3.sat, z3.unsat):
+            c = self.cvc5_verdict(s)
+            st = Validator.cross_stats
+            st["queries"] += 1
+            if c == str(r):
+                st["agree"] += 1
+            elif c in ("unknown", "error"):
+                st["inconclusive"] += 1
+            else:
+                st["disagree"] += 1
+                raise model.ModelError("solver disagreement: z3 says %s, cvc5 says %s" % (r, c))
         if r == z3.unknown and timeout_ms >= 120000:
             # a loaded machine is not a verdict: one retry with five times the budget
             s.set("timeout", timeout_ms * 5)
@@ -421,7 +456,7 @@ class Validator:
         s = z3.Solver()
         s.add(wf)
         s.add(any_plan_pos, z3.Not(in_all))
-        r1 = self.check(s)
+        r1 = self.check(s, obligation=True)
         res["spurious"] = str(r1)
         if r1 == z3.sat:
             res["witness"] = self.extract(s.model(), tables, tup, "spurious")
@@ -430,7 +465,7 @@ class Validator:
         s = z3.Solver()
         s.add(wf)
         s.add(lost_inst)
-        r2 = self.check(s)
+        r2 = self.check(s, obligation=True)
         res["lost"] = str(r2)
         if r2 == z3.sat:
             # candidate only: confirm with the exact (fully expanded) negation when it is small enough,
@@ -971,7 +1006,7 @@ def cover_query(V, rr, variants):
                 continue
             cs.append(model.constraint_holds(c, {c["col"]: t[i]}))
         s.add(z3.Not(z3.And(cs) if cs else z3.BoolVal(True)))
-    r = V.check(s, 30000)
+    r = V.check(s, 30000, obligation=True)
     return str(r), ([s.model().eval(x, model_completion=True).as_long() for x in t] if r == z3.sat else None)
 
 
@@ -979,6 +1014,9 @@ def work_item(args):
     """One (shape, no_decomp, profile, seed, schedule) program: run it through the real binary, validate every
     plan not seen before, cross-check model and engine on the concrete database.  -> dict"""
     (binary, workdir, prop, sid, body, no_decomp, profile, seed, schedule, rules, seen_keys) = args
+    Validator.cross = bool(os.environ.get("VERIF_E2_CVC5"))
+    if Validator.cross_stats is None:
+        Validator.cross_stats = {"queries": 0, "agree": 0, "inconclusive": 0, "disagree": 0}
     res = {"shape": sid, "body": body, "no_decomp": no_decomp, "profile": profile[0], "seed": seed,
            "schedule": "".join(r[0] for r in schedule) + ("c" if "__companion__" in rules else ""),
            "plans": [], "errors": [], "violations": [], "sanity": [], "chain": [], "cover": [], "solver_s": 0.0, "queries": 0}
@@ -1230,6 +1268,8 @@ def work_item(args):
                                       "replay": art, "reproduced": True})
         res["solver_s"] += V.solver_s
         res["queries"] += V.queries
+        res["cvc5"] = dict(Validator.cross_stats)
+        Validator.cross_stats = {"queries": 0, "agree": 0, "inconclusive": 0, "disagree": 0}
     except Exception as e:  # noqa
         import traceback
         res["errors"].append("driver exception in %s: %r\n%s" % (sid, e, traceback.format_exc()[-1500:]))
@@ -1337,6 +1377,8 @@ def main():
             return 1
         print("did not reproduce" if rep is False else "replay could not be run")
         return 0 if rep is False else 2
+    if a.tier == "thorough":
+        os.environ["VERIF_E2_CVC5"] = "1"
     cfg_items, shapes, profiles, seeds = configs_for(a.prop, a.tier, a.seed)
     if a.only:
         cfg_items = [c for c in cfg_items if a.only in c[0]]
@@ -1368,6 +1410,11 @@ def main():
             plans.append(p)
             k = p["kind"] + ("/%d blocks" % p["blocks"] if p["kind"] == "Decomposed" else "")
             kinds[k] = kinds.get(k, 0) + 1
+    cv = {"queries": 0, "agree": 0, "inconclusive": 0, "disagree": 0}
+    for r in all_res:
+        for k_, v_ in (r.get("cvc5") or {}).items():
+            cv[k_] += v_
+    result["second_solver_cvc5"] = cv
     chain = [c for r in all_res for c in r["chain"]]
     cover = [c for r in all_res for c in r["cover"]]
     result["extra"] = {"trace_chain_checks": {"run": len(chain), "ok": sum(1 for c in chain if c["ok"])},
